@@ -338,6 +338,27 @@ def main(tier):
             if d:
                 ck.violation('c07:not-invariant:%s' % kind, 'composition (%s) changes under %s' % (d, kind),
                              dict(formula=s, rewritten=s2, returned=r, returned_rewritten=r2))
+    # (3b) long formulas (lengths straddling 256 ... 65536 bytes: private buffers, length fields) and subscripts with 10-17 decimals
+    for L in (255, 256, 511, 512, 1023, 1024, 1025, 2047, 2048, 4096, 8191, 16384, 65535, 65536):
+        for unit, head, tail in (('C2H4', '', 'Cl'), ('CH2', '(', ')3O'), ('O', 'Si', ''), ('Fe0.5', 'Ni', 'O'), ('(OH)2', 'Ca', 'F')):
+            k = max(1, (L - len(head) - len(tail)) // len(unit))
+            for kk in (k, k + 1):
+                mon.check((head + unit * kk + tail).encode(), 'long', expect='VALID')
+    for k in range(300 if quick else 5000):
+        els = [rng.choice(wl) for _ in range(rng.randint(2, 4))]
+        if len(set(els)) < len(els):
+            continue
+        parts = []
+        for j, e in enumerate(els):
+            nd = rng.choice([0, 1, 3, 9, 10, 11, 12, 15, 17, 20, 32, 40])
+            sub = '' if nd == 0 and rng.random() < 0.5 else ('%d' % rng.randint(0 if nd else 1, 9) + ('.' + ''.join(rng.choice('0123456789') for _ in range(nd - 1)) + rng.choice('123456789') if nd else ''))
+            parts.append(e + sub)
+        f = ''.join(parts)
+        if rng.random() < 0.3:
+            f = '(' + f + ')0.' + ''.join(rng.choice('0123456789') for _ in range(rng.choice([9, 10, 16]))) + '7' + rng.choice(wl) + '0.5'
+        v_ = fm.classify(f.encode())
+        if v_.cls == 'VALID':
+            mon.check(f.encode(), 'long-decimals', expect='VALID')
     # hand-written strings of every rejection class (so that each class is exercised whatever the seed)
     for s in ['', ' ', 'H 2', 'H2O ', 'H+', 'H2,5', 'H2O\n', '\xe9', 'H)', '(H', ')H(', '((H)', 'Xx', 'Ha', 'hO', 'Hoo', 'H0', 'H0.0', 'H00', '(H)0', 'H2.5.1', 'H..', 'H.',
               '.', '(.)', 'Rf', 'Db2O', 'H(Sg)', 'Bh0.5', '2H', '(2H)', 'H(2)', '.Cl', '(.No4)', 'Yb4(Mg)a2.30Zr3', '.uNe', '(H)a', 'H1.a', '.5H', 'H.5', 'H5.', '()', 'H()',
@@ -367,7 +388,10 @@ def main(tier):
     for k in range(N_ADD):
         sa, sb = rng.choice(valid_pool), rng.choice(valid_pool)
         wa, wb = (rng.choice([0.25, 0.5, 1.0, 2.0, 0.1]) if rng.random() < 0.3 else rng.uniform(0.01, 5.0)), rng.uniform(0.01, 5.0)
-        r = X.add_compounds(sa.encode(), wa, sb.encode(), wb)
+        same = k % 16 == 5                                  # the same composition object handed in as both operands
+        if same:
+            sb = sa
+        r = X.add_compounds(sa.encode(), wa, sb.encode(), wb, same=same, twice=(k % 4 == 1))
         if isinstance(r, xl.Err):
             if r.message == 'operand does not parse':
                 continue                                   # already reported by (3)
@@ -382,6 +406,10 @@ def main(tier):
             exp[z] += wb * f
         zs = sorted(exp)
         wit = dict(A=sa, wA=wa, B=sb, wB=wb, returned=r, expected=dict(Elements=zs, massFractions=[exp[z] for z in zs]))
+        if r.get('operands_changed'):
+            ck.violation('c07:add_compound_data:modifies-its-operands', 'the operand structures (passed by value) differ after the call', wit)
+        if r.get('second', r) is None or any(r.get('second', r)[f] != r[f] for f in ('Elements', 'massFractions', 'nElements')):
+            ck.violation('c07:add_compound_data:second-call-on-same-operands-differs', 'repeating the call on the same operand objects gives another result', dict(wit, second=r.get('second')))
         if r['Elements'] != zs or r['nElements'] != len(zs):
             ck.violation('c07:add_compound_data:wrong-elements', 'elements %r, expected the ascending union %r' % (r['Elements'], zs), wit)
         elif any(not abs(x - exp[z]) <= TOL * exp[z] for x, z in zip(r['massFractions'], zs)):
